@@ -1107,8 +1107,17 @@ func (p *Program) compositeOfIn(fn *Func, x ast.Expr) (*ast.CompositeLit, *Func)
 				continue
 			}
 			ds, ok := fn.Defs().singleDef(obj)
-			if !ok || ds.kind != "assign" || ds.multi {
+			if !ok || ds.kind != "assign" {
 				return nil, nil
+			}
+			if ds.multi {
+				// one of several results of a builder helper that was looked into on the current path
+				res, rfn, ok := p.inlinedResults(fn, ds.rhs)
+				if !ok || ds.idx >= len(res) {
+					return nil, nil
+				}
+				fn, x = rfn, res[ds.idx]
+				continue
 			}
 			x = ds.rhs
 		default:
